@@ -75,6 +75,12 @@ def cases(tier, rng, run):
                     p = f"P|t|T|{';'.join(specs)}|U:{';'.join(vals)}"
                     first = "P|x|S|FloatTensor,0,a|T,2:float32,3"
                     out.append(Case(f"CALL\tfunc:pos\t-\t\t{first}\t{p}", f"param{n}"))
+                    if rng.random() < 0.2:
+                        # the value of a tuple-hinted position need not be an exact tuple: an instance of a tuple SUBCLASS (a NamedTuple,
+                        # what torch.max(x, dim) returns) or a list holds its elements position by position all the same
+                        seq = rng.choice(["S:", "L:"])
+                        out.append(Case(f"CALL\tfunc:pos\t-\t\t{first}\tP|t|T|{';'.join(specs)}|{seq}{';'.join(vals)}", f"param{n}-{seq[0]}"))
+                        out.append(Case(f"CALL\tfunc:kw\t-\t\t{first}\tR|T|{';'.join(specs)}|{seq}{';'.join(vals)}", f"ret{n}-{seq[0]}"))
                     out.append(Case(f"CALL\tfunc:kw\t-\t\t{first}\tR|T|{';'.join(specs)}|U:{';'.join(vals)}", f"ret{n}"))
                     if fault_kind == "lit" and n <= 3:
                         # the tuple hint is the ONLY hinted thing of the function (plain types may come first inside it)
